@@ -97,3 +97,18 @@ func VerifC20_Generate() {
 		}
 	}
 }
+
+// VerifC20_Existing: generate refuses to overwrite an existing file and leaves it untouched.
+func VerifC20_Existing() {
+	h := vrtCmdHeader([]string{"1s:2s,2s:4s"}, wt.Sum, 0.5)
+	now := vrtCmdInstant(h, "now")
+	vrtCmdAssumeClock(h, now)
+	vrt.SetClock(uint32(now))
+	img, _ := vrtCmdInvImage(h, "d", now)
+	dest := vrt.TempFile("gen/old.wsp", img)
+	vrt.Reach("pre")
+	err := (&GenerateCommand{Dest: dest, AggregationMethod: wt.Sum, XFilesFactor: 0.5, ArchiveInfoList: h.ArchiveInfoList(), RandMax: 3, Fill: vrt.Choose("fill", 2) == 1}).Execute()
+	vrt.Assert(err != nil, "C20 generate refuses to overwrite an existing file")
+	vrt.Assert(vrt.FileExists(dest), "C20 the existing file is still there")
+	vrtBytesEqual(vrt.ReadFile(dest), img, "C20 the existing file is left untouched")
+}
